@@ -180,6 +180,32 @@ Theorem C20_ready_wait_bounded_any_mode_refuted :
 Proof. exact C20_ready_wait_bounded_any_mode_refuted_proof. Qed.
 Print Assumptions C20_ready_wait_bounded_any_mode_refuted.
 
+(* The progress file is replaced atomically: with a staging name of its own for every writer, for EVERY
+   interleaving of the create / write / rename / remove steps of two writers and of three writers
+   (complete enumeration; a finished writer's extra turns are no-ops) every reader sees, at all times,
+   exactly one writer's complete record, and no rename is lost. *)
+Theorem C20_progress_write_atomic :
+  (forall sched, In sched (all_seqs 2 8) -> pw_safe SUnique (pw_init 2) sched = true) /\
+  (forall sched, In sched (all_seqs 3 12) -> pw_safe SUnique (pw_init 3) sched = true).
+Proof. exact C20_progress_write_atomic_proof. Qed.
+Print Assumptions C20_progress_write_atomic.
+
+(* ... and that is how cmd/reload.go chooses the staging name now (os.CreateTemp with a pattern vs a
+   fixed name; regenerated). *)
+Theorem C20_progress_write_atomic_code :
+  gen_staging = SUnique /\
+  (forall sched, In sched (all_seqs 3 12) -> pw_safe gen_staging (pw_init 3) sched = true).
+Proof. exact C20_progress_write_atomic_code_proof. Qed.
+Print Assumptions C20_progress_write_atomic_code.
+
+(* With one shared staging name it is false: create A, create/truncate B, write A, write B, rename A (the
+   progress file now holds a splice of both records), rename B fails (B's answer is never published). *)
+Theorem C20_progress_write_shared_staging_refuted :
+  pw_safe SShared (pw_init 2) [0; 1; 0; 1; 0; 1] = false /\
+  (let s := fold_left (pw_step SShared) [0; 1; 0; 1; 0; 1] (pw_init 2) in pw_read s = None /\ pw_lost s = true).
+Proof. exact C20_progress_write_shared_staging_refuted_proof. Qed.
+Print Assumptions C20_progress_write_shared_staging_refuted.
+
 (* The `default:` branch of the non-blocking send in tryQueueReloadRequest is dead: a thread that won
    the CAS always finds room in the channel. *)
 Theorem C20_send_never_fails :
